@@ -35,7 +35,7 @@ pub fn run(ctx: &Ctx) -> Report {
     // (b) builders: the C03 family (a subset in quick)
     let tid0: u128 = ((ctx.seeded(5) as u128) << 16 | 0xABCD) & c03::MASK96;
     let alpha = c03::attr_alphabet(tid0);
-    let lists = c03::attr_lists(&alpha, ctx.tier.pick(1, 2));
+    let lists = c03::attr_lists(&alpha, ctx.tier.pick(2, 3));
     for (i, l) in lists.iter().enumerate() {
         for s in c03::sealings(0) {
             let mut ops = l.clone();
